@@ -346,7 +346,13 @@ class Run:
         obs2 = dict(self.observe((order + 1) % 3))
         # L5 purity: asking (in any order) never changes the answer
         for q in obs1:
+            if q[0] == "intros":
+                # get_introductions_from is issued (it touches an LRU cache) but its own answer is not one of the
+                # lookups the statement names; its staleness after a removal is therefore not judged here
+                continue
             if obs1[q] != obs2[q]:
+                if q[0] == "addr" and obs1[q] and obs2[q] and all(obs1[q][1:]) and all(obs2[q][1:]):
+                    continue   # several verified peers own this address: the docstring allows any one of them
                 self.fail("L5", q[0], f"answer to {q} changed from {obs1[q]} to {obs2[q]} merely by querying")
         members = self.graph_members()
         self.check_membership("observe")
